@@ -7,14 +7,14 @@ Import ListNotations.
 
 (* ---------- capacity accounting: no eviction while 2 * (announcements so far) <= HashLimit ---------- *)
 
-Definition size (l : lru) : nat := fold_right (fun e a => (length (e_val e) + a)%nat) 0%nat l.
+Notation size := table_size.
 
 Definition entries_ok (l : lru) : Prop :=
   forall e, In e l -> (e_weight e <= N.of_nat (length (e_val e)))%N /\ e_val e <> [].
 
 Lemma weight_le_size l : entries_ok l -> (lru_weight l <= N.of_nat (size l))%N.
 Proof.
-  unfold lru_weight, size. induction l as [|a l IH]; intros H; cbn [fold_right]; [lia|].
+  unfold lru_weight, table_size. induction l as [|a l IH]; intros H; cbn [fold_right]; [lia|].
   assert (H1 := proj1 (H a (or_introl eq_refl))).
   assert (H2 : entries_ok l) by (intros e He; apply H; right; exact He).
   specialize (IH H2). lia.
@@ -22,7 +22,7 @@ Qed.
 
 Lemma len_le_size l : entries_ok l -> (length l <= size l)%nat.
 Proof.
-  unfold size. induction l as [|a l IH]; intros H; cbn [fold_right length]; [lia|].
+  unfold table_size. induction l as [|a l IH]; intros H; cbn [fold_right length]; [lia|].
   assert (H1 := proj2 (H a (or_introl eq_refl))).
   assert (H2 : entries_ok l) by (intros e He; apply H; right; exact He).
   specialize (IH H2). destruct (e_val a); [contradiction | cbn [length]; lia].
@@ -39,7 +39,7 @@ Lemma size_del_found k l e : lru_find k l = Some e -> size l = (length (e_val e)
 Proof.
   induction l as [|a l IH]; cbn [lru_find lru_del]; [discriminate|].
   destruct (e_key a =? k)%N; [intros H; inversion H; subst; reflexivity|].
-  intros H. specialize (IH H). unfold size in *. cbn [fold_right]. lia.
+  intros H. specialize (IH H). unfold table_size in *. cbn [fold_right]. lia.
 Qed.
 
 Lemma del_notfound k l : lru_find k l = None -> lru_del k l = l.
@@ -53,17 +53,17 @@ Proof. intros H Ho e He. apply Ho, H, He. Qed.
 
 (* one iteration of processNotification's loop, within capacity: nothing is evicted, the size grows
    by two, every other key keeps its entry, the key itself keeps its first announce *)
-Lemma notify_one_acct c now d susp st tf i A :
-  entries_ok (ann st) -> (size (ann st) <= 2 * A)%nat ->
-  (N.of_nat (2 * S A) <= c_hash_limit c)%N ->
+Lemma notify_one_acct c now d susp st tf i :
+  entries_ok (ann st) ->
+  (N.of_nat (size (ann st) + 2) <= c_hash_limit c)%N ->
   let st' := fst (notify_one c now d susp (st, tf) i) in
-  entries_ok (ann st') /\ (size (ann st') <= 2 * S A)%nat /\
+  entries_ok (ann st') /\ (size (ann st') <= size (ann st) + 2)%nat /\
   (forall k, k <> i -> lru_find k (ann st') = lru_find k (ann st)) /\
   (exists e', lru_find i (ann st') = Some e' /\
      (forall e, In e (ann st') -> e = e' \/ In e (ann st)) /\
      (forall a, In a (e_val e') -> a = d \/ exists e, In e (ann st) /\ e_key e = i /\ In a (e_val e))).
 Proof.
-  intros Hok Hsz Hcap. unfold notify_one.
+  intros Hok Hcap. unfold notify_one.
   assert (Hget : lru_get i (ann st) =
                  match lru_find i (ann st) with
                  | Some e => (Some (e_val e), e :: lru_del i (ann st))
@@ -93,7 +93,7 @@ Proof.
     - pose proof (len_le_size _ Hok1). unfold lru_len. lia. }
   rewrite Hnorm.
   assert (Hres : forall f, let st' := mkSt l1' f (tm st) in
-     entries_ok (ann st') /\ (size (ann st') <= 2 * S A)%nat /\
+     entries_ok (ann st') /\ (size (ann st') <= size (ann st) + 2)%nat /\
      (forall k, k <> i -> lru_find k (ann st') = lru_find k (ann st)) /\
      (exists e', lru_find i (ann st') = Some e' /\
         (forall e, In e (ann st') -> e = e' \/ In e (ann st)) /\
@@ -120,27 +120,27 @@ Definition young_inv (c : cfg) (id : N) (Tend : Z) (st : state) : Prop :=
 
 Definition held (id : N) (st : state) : Prop := lru_find id (ann st) <> None.
 
-Lemma notify_fold_acct c now d susp id Tend l : forall st tf A,
-  entries_ok (ann st) -> (size (ann st) <= 2 * A)%nat ->
-  (N.of_nat (2 * (A + length l)) <= c_hash_limit c)%N ->
+Lemma notify_fold_acct c now d susp id Tend l : forall st tf,
+  entries_ok (ann st) ->
+  (N.of_nat (size (ann st) + 2 * length l) <= c_hash_limit c)%N ->
   (In id l -> (Tend - a_time d <= c_forget c)%Z) ->
   young_inv c id Tend st ->
   let st' := fst (fold_left (notify_one c now d susp) l (st, tf)) in
-  entries_ok (ann st') /\ (size (ann st') <= 2 * (A + length l))%nat /\
+  entries_ok (ann st') /\ (size (ann st') <= size (ann st) + 2 * length l)%nat /\
   young_inv c id Tend st' /\ (held id st -> held id st') /\ (In id l -> held id st').
 Proof.
-  induction l as [|i l IH]; intros st tf A Hok Hsz Hcap Hd Hy; cbn [fold_left fst length].
-  - rewrite Nat.add_0_r. split; [assumption|]. split; [assumption|]. split; [assumption|]. split; [auto | intros []].
-  - assert (Hcap1 : (N.of_nat (2 * S A) <= c_hash_limit c)%N) by (cbn [length] in Hcap; lia).
-    pose proof (notify_one_acct c now d susp st tf i A Hok Hsz Hcap1) as H1. cbn zeta in H1.
+  induction l as [|i l IH]; intros st tf Hok Hcap Hd Hy; cbn [fold_left fst length].
+  - split; [assumption|]. split; [lia|]. split; [assumption|]. split; [auto | intros []].
+  - assert (Hcap1 : (N.of_nat (size (ann st) + 2) <= c_hash_limit c)%N) by (cbn [length] in Hcap; lia).
+    pose proof (notify_one_acct c now d susp st tf i Hok Hcap1) as H1. cbn zeta in H1.
     destruct (notify_one c now d susp (st, tf) i) as [st1 tf1]. cbn [fst] in H1.
     destruct H1 as (Hok1 & Hsz1 & Hoth & (e' & Hf' & Hin' & Hv')).
     assert (Hy1 : young_inv c id Tend st1).
     { intros e a He Hk Ha. destruct (Hin' e He) as [->|Ho]; [|eapply Hy; eauto].
       destruct (lru_find_some _ _ _ Hf') as [_ Hk']. rewrite Hk' in Hk. subst i.
       destruct (Hv' a Ha) as [->|(e0 & H1 & H2 & H3)]; [apply Hd; left; reflexivity | eapply Hy; eauto]. }
-    assert (Hcap2 : (N.of_nat (2 * (S A + length l)) <= c_hash_limit c)%N) by (cbn [length] in Hcap; lia).
-    specialize (IH st1 tf1 (S A) Hok1 Hsz1 Hcap2 (fun H => Hd (or_intror H)) Hy1). cbn zeta in IH.
+    assert (Hcap2 : (N.of_nat (size (ann st1) + 2 * length l) <= c_hash_limit c)%N) by (cbn [length] in Hcap; lia).
+    specialize (IH st1 tf1 Hok1 Hcap2 (fun H => Hd (or_intror H)) Hy1). cbn zeta in IH.
     destruct IH as (H2 & H3 & H4 & H5 & H6).
     split; [exact H2|]. split; [cbn [length]; lia|]. split; [exact H4|].
     assert (Hh1 : held id st -> held id st1).
@@ -159,7 +159,7 @@ Qed.
 Lemma size_get k l : size (snd (lru_get k l)) = size l.
 Proof.
   unfold lru_get. destruct (lru_find k l) as [e|] eqn:F; cbn [snd]; [|reflexivity].
-  rewrite (size_del_found _ _ _ F). unfold size. reflexivity.
+  rewrite (size_del_found _ _ _ F). unfold table_size. reflexivity.
 Qed.
 
 Definition shrinks (st st' : state) : Prop :=
@@ -216,8 +216,8 @@ Qed.
 
 (* ---------- the invariant of the whole run ---------- *)
 
-Definition genv (c : cfg) (id : N) (Tend : Z) (st : state) (A : nat) : Prop :=
-  entries_ok (ann st) /\ (size (ann st) <= 2 * A)%nat /\ young_inv c id Tend st.
+Definition genv (c : cfg) (id : N) (Tend : Z) (st : state) : Prop :=
+  entries_ok (ann st) /\ young_inv c id Tend st.
 
 Definition ev_young (c : cfg) (id : N) (Tend : Z) (ev : event) : Prop :=
   match ev with
@@ -225,28 +225,28 @@ Definition ev_young (c : cfg) (id : N) (Tend : Z) (ev : event) : Prop :=
   | _ => True
   end.
 
-Lemma genv_shrinks c id Tend st st' A : shrinks st st' -> genv c id Tend st A -> genv c id Tend st' A.
+Lemma genv_shrinks c id Tend st st' : shrinks st st' -> genv c id Tend st -> genv c id Tend st'.
 Proof.
-  intros [H1 H2] (Ho & Hs & Hy). split; [eapply entries_ok_incl; eauto|]. split; [lia|].
+  intros [H1 H2] (Ho & Hy). split; [eapply entries_ok_incl; eauto|].
   intros e a He. apply Hy, H1, He.
 Qed.
 
-Lemma step_genv c id Tend st now ev A :
-  genv c id Tend st A -> (N.of_nat (2 * (A + ev_count ev)) <= c_hash_limit c)%N -> ev_young c id Tend ev ->
-  genv c id Tend (fst (step true c st now ev)) (A + ev_count ev) /\
+Lemma step_genv c id Tend st now ev :
+  genv c id Tend st -> ev_cap c st ev -> ev_young c id Tend ev ->
+  genv c id Tend (fst (step true c st now ev)) /\
   (held id st -> match ev with ENotify _ _ _ _ _ _ => held id (fst (step true c st now ev)) | _ => True end) /\
   (match ev with ENotify _ _ _ interested _ _ => In id interested -> held id (fst (step true c st now ev)) | _ => True end).
 Proof.
   intros Hg Hcap Hyg.
   destruct ev as [peer ids atime interested susp scan | ids | | interested ch scan].
-  2-4: (split; [|split; [intros _; exact I | exact I]]); cbn [ev_count]; rewrite Nat.add_0_r;
+  2-4: (split; [|split; [intros _; exact I | exact I]]);
        (eapply genv_shrinks; [apply shrinks_step; exact I | exact Hg]).
-  cbn [step ev_count]. unfold process_notification.
+  cbn [step]. unfold process_notification. cbn [ev_cap] in Hcap.
   destruct interested as [|i0 rest].
-  { cbn [length fst]. rewrite Nat.add_0_r. split; [exact Hg|]. split; [auto | intros []]. }
+  { cbn [fst]. split; [exact Hg|]. split; [auto | intros []]. }
   remember (i0 :: rest) as interested eqn:EI. clear EI.
-  destruct Hg as (Ho & Hs & Hy).
-  pose proof (notify_fold_acct c now (mkA atime peer) susp id Tend interested st [] A Ho Hs Hcap Hyg Hy) as H.
+  destruct Hg as (Ho & Hy).
+  pose proof (notify_fold_acct c now (mkA atime peer) susp id Tend interested st [] Ho Hcap Hyg Hy) as H.
   cbn zeta in H.
   destruct (fold_left (notify_one c now (mkA atime peer) susp) interested (st, [])) as [st1 tf]. cbn [fst] in *.
   destruct H as (H1 & H2 & H3 & H4 & H5).
@@ -263,13 +263,13 @@ Proof.
   now rewrite (proj1 (forget_other id i st Hne)).
 Qed.
 
-Lemma pass_keeps_held c id Tend st now interested ch scan A :
-  (c_slack c <= c_arrive c)%Z -> genv c id Tend st A -> (now <= Tend)%Z ->
+Lemma pass_keeps_held c id Tend st now interested ch scan :
+  (c_slack c <= c_arrive c)%Z -> genv c id Tend st -> (now <= Tend)%Z ->
   timer_chan st = true -> In id interested -> held id st ->
   let st' := fst (step true c st now (ETimer interested ch scan)) in
   held id st' /\ exists p ft, f_find id (fetching st') = Some (p, ft) /\ (now - ft <= c_arrive c - c_slack c)%Z.
 Proof.
-  intros Hs (Ho & _ & Hy) Hnow Hc Hin Hh. unfold held in Hh.
+  intros Hs (Ho & Hy) Hnow Hc Hin Hh. unfold held in Hh.
   destruct (lru_find id (ann st)) as [e|] eqn:F; [|contradiction].
   destruct (lru_find_some _ _ _ F) as [He Hk].
   destruct (e_val e) as [|oldest more] eqn:Ev; [exfalso; exact (proj2 (Ho e He) Ev)|].
@@ -313,16 +313,22 @@ Proof. apply lru_find_ann_ne. Qed.
 
 (* ---------- chasing the first pass at or after T0 ---------- *)
 Section Chase.
-Variables (c : cfg) (lat : Z) (id : N) (T0 : Z).
+Variables (c : cfg) (lat : Z) (k : nat) (id : N) (T0 : Z).
 Hypothesis Hwf : cfg_wf c.
 Hypothesis Hsl : (c_slack c <= c_arrive c)%Z.
 Hypothesis Hlat : (0 <= lat)%Z.
 Let Bmax := (T0 + c_arrive c)%Z.
-Let Tend := (T0 + c_arrive c + 2 * lat)%Z.
+Let Tend := (T0 + c_arrive c + (Z.of_nat k + 2) * lat)%Z.
 
-Lemma chase : forall post st tprev A,
-  resp_inv lat Bmax st tprev -> fair_run c lat st tprev post ->
-  genv c id Tend st A -> (N.of_nat (2 * (A + announced_count post)) <= c_hash_limit c)%N ->
+(* a pass is pending: its value is in the channel (n events have overtaken it so far), or the timer is
+   armed and due by Bmax *)
+Definition resp_inv_k (st : state) (tprev : Z) (n : nat) : Prop :=
+  (timer_chan st = true /\ (tprev <= Bmax + lat + Z.of_nat n * lat)%Z /\ (n <= k)%nat) \/
+  (timer_chan st = false /\ exists due, timer_due st = Some due /\ (due <= Bmax)%Z).
+
+Lemma chase : forall post st tprev n,
+  resp_inv_k st tprev n -> fair_run_k c lat k st tprev n post ->
+  genv c id Tend st -> cap_ok c st post ->
   (forall now ev, In (now, ev) post -> ev_young c id Tend ev) ->
   held id st ->
   (forall now i ch sc, In (now, ETimer i ch sc) post -> In id i) ->
@@ -333,53 +339,65 @@ Lemma chase : forall post st tprev A,
     exists p ft, f_find id (fetching (fst (step true c (fst (run true c st p1)) now_p (ETimer i ch sc)))) = Some (p, ft) /\
                  (now_p - ft <= c_arrive c - c_slack c)%Z.
 Proof.
-  induction post as [|[now ev] post IH]; intros st tprev A Hinv Hfair Hg Hcap Hy Hh Hint Hrec (nl & el & Hl & Hlate); [contradiction|].
-  cbn [fair_run] in Hfair. destruct Hfair as (Hf1 & Hf2 & Hf3).
-  cbn [announced_count fold_right snd] in Hcap. fold (announced_count post) in Hcap.
-  assert (Hcap1 : (N.of_nat (2 * (A + ev_count ev)) <= c_hash_limit c)%N) by lia.
-  assert (Hcap2 : (N.of_nat (2 * (A + ev_count ev + announced_count post)) <= c_hash_limit c)%N) by lia.
-  destruct (step_genv c id Tend st now ev A Hg Hcap1 (Hy now ev (or_introl eq_refl))) as (Hg1 & Hk1 & _).
-  assert (Hy' : forall n e, In (n, e) post -> ev_young c id Tend e) by (intros n e H; eapply Hy; right; exact H).
-  assert (Hint' : forall n i ch sc, In (n, ETimer i ch sc) post -> In id i) by (intros n i ch sc H; eapply Hint; right; exact H).
-  assert (Hrec' : forall n l, In (n, EReceived l) post -> ~ In id l) by (intros n l H; eapply Hrec; right; exact H).
-  (* continue with the tail, prefixing the found split *)
-  assert (Hcont : (now <= Tend)%Z -> resp_inv lat Bmax (fst (step true c st now ev)) now -> held id (fst (step true c st now ev)) ->
+  induction post as [|[now ev] post IH]; intros st tprev n Hinv Hfair Hg Hcap Hy Hh Hint Hrec (nl & el & Hl & Hlate); [contradiction|].
+  cbn [fair_run_k] in Hfair. destruct Hfair as (Hf1 & Hf2 & Hf3).
+  cbn [cap_ok] in Hcap. destruct Hcap as [Hcap1 Hcap2].
+  destruct (step_genv c id Tend st now ev Hg Hcap1 (Hy now ev (or_introl eq_refl))) as (Hg1 & Hk1 & _).
+  assert (Hy' : forall n0 e, In (n0, e) post -> ev_young c id Tend e) by (intros n0 e H; eapply Hy; right; exact H).
+  assert (Hint' : forall n0 i ch sc, In (n0, ETimer i ch sc) post -> In id i) by (intros n0 i ch sc H; eapply Hint; right; exact H).
+  assert (Hrec' : forall n0 l, In (n0, EReceived l) post -> ~ In id l) by (intros n0 l H; eapply Hrec; right; exact H).
+  assert (Hcont : forall n', (now <= Tend)%Z ->
+    n' = (if timer_chan st && negb (takes_pass st ev) then S n else 0%nat) ->
+    resp_inv_k (fst (step true c st now ev)) now n' -> held id (fst (step true c st now ev)) ->
     exists p1 now_p i ch sc p2,
       (now, ev) :: post = p1 ++ (now_p, ETimer i ch sc) :: p2 /\ (T0 <= now_p <= Tend)%Z /\
       exists p ft, f_find id (fetching (fst (step true c (fst (run true c st p1)) now_p (ETimer i ch sc)))) = Some (p, ft) /\
                    (now_p - ft <= c_arrive c - c_slack c)%Z).
-  { intros Hnow Hinv1 Hh1.
-    assert (Hl' : exists n e, In (n, e) post /\ (Tend < n)%Z).
+  { intros n' Hnow En' Hinv1 Hh1. subst n'.
+    assert (Hl' : exists n0 e, In (n0, e) post /\ (Tend < n0)%Z).
     { destruct Hl as [E|Hl]; [inversion E; subst; lia | eauto]. }
     destruct (IH _ now _ Hinv1 Hf3 Hg1 Hcap2 Hy' Hh1 Hint' Hrec' Hl') as (p1 & now_p & i & ch & sc & p2 & E & Hb & Hr).
     exists ((now, ev) :: p1), now_p, i, ch, sc, p2. cbn [app run]. rewrite E. split; [reflexivity|]. split; [exact Hb|].
     destruct (step true c st now ev) as [st1 o]. cbn [fst] in *.
     destruct (run true c st1 p1) as [st2 lg]. cbn [fst] in *. exact Hr. }
-  unfold resp_inv in Hinv. destruct Hinv as [[Hc Ht] | [Hc (due & Hd & Hdb)]].
-  - (* the value is in the channel: the loop takes the pass now *)
-    destruct (Hf2 Hc) as [(i & ch & sc & ->) Hn].
-    assert (Hnow : (now <= Tend)%Z) by (unfold Tend, Bmax in *; lia).
-    assert (Hin : In id i) by (eapply Hint; left; reflexivity).
-    destruct (pass_keeps_held c id Tend st now i ch sc A Hsl Hg Hnow Hc Hin Hh) as [Hh1 Hr].
-    destruct (Z_le_gt_dec T0 now) as [Hge|Hlt].
-    + exists [], now, i, ch, sc, post. cbn [app run fst]. split; [reflexivity|]. split; [lia | exact Hr].
-    + apply Hcont; [exact Hnow | | exact Hh1].
-      destruct (pass_rearms c st now i ch sc Hwf Hc (held_ann_ne _ _ Hh1)) as (Hc1 & due & Hd & Hb).
-      right. split; [exact Hc1|]. exists due. split; [exact Hd | unfold Bmax; lia].
-  - assert (Hnow : (now <= Tend)%Z) by (specialize (Hf1 due Hd); unfold Tend, Bmax in *; lia).
-    assert (Hnow' : (now <= Bmax + lat)%Z) by (specialize (Hf1 due Hd); lia).
+  unfold resp_inv_k in Hinv. destruct Hinv as [(Hc & Ht & Hn) | [Hc (due & Hd & Hdb)]].
+  - destruct (Hf2 Hc) as [Hn1 Hp].
+    assert (Hnow : (now <= Tend)%Z) by (unfold Tend, Bmax in *; nia).
+    destruct ev as [peer ids atime interested susp scan | ids | | i ch sc].
+    4:{ (* the pass *)
+        assert (Hin : In id i) by (eapply Hint; left; reflexivity).
+        destruct (pass_keeps_held c id Tend st now i ch sc Hsl Hg Hnow Hc Hin Hh) as [Hh1 Hr].
+        destruct (Z_le_gt_dec T0 now) as [Hge|Hlt].
+        - exists [], now, i, ch, sc, post. cbn [app run fst]. split; [reflexivity|]. split; [lia | exact Hr].
+        - apply (Hcont 0%nat); [exact Hnow | cbn [takes_pass]; rewrite Hc; reflexivity | | exact Hh1].
+          destruct (pass_rearms c st now i ch sc Hwf Hc (held_ann_ne _ _ Hh1)) as (Hc1 & due & Hd & Hb).
+          right. split; [exact Hc1|]. exists due. split; [exact Hd | unfold Bmax; lia]. }
+    all: cbn [takes_pass] in Hp; destruct Hp as [Hp|Hp]; [discriminate|].
+    all: assert (Hb2 : (now <= Bmax + lat + Z.of_nat (S n) * lat)%Z) by (rewrite Nat2Z.inj_succ; nia).
+    + apply (Hcont (S n)); [exact Hnow | cbn [takes_pass]; rewrite Hc; reflexivity | | exact (Hk1 Hh)].
+      left. unfold timer_chan in *. rewrite notify_keeps_timer by (now apply held_ann_ne with id). split; [exact Hc|]. split; [exact Hb2 | lia].
+    + apply (Hcont (S n)); [exact Hnow | cbn [takes_pass]; rewrite Hc; reflexivity | | apply received_keeps_held; [eapply Hrec; left; reflexivity | exact Hh]].
+      left. unfold timer_chan in *. rewrite received_keeps_timer. split; [exact Hc|]. split; [exact Hb2 | lia].
+    + apply (Hcont (S n)); [exact Hnow | cbn [takes_pass]; rewrite Hc; reflexivity | | ].
+      * left. unfold timer_chan in *. cbn [step].
+        destruct (t_armed (tm st)) as [due|]; [destruct (due <=? now)%Z|]; cbn [fst tm t_chan]; (split; [try exact Hc; reflexivity|]); split; try exact Hb2; lia.
+      * unfold held. cbn [step]. destruct (t_armed (tm st)) as [due|]; [destruct (due <=? now)%Z|]; exact Hh.
+  - assert (Hnow' : (now <= Bmax + lat)%Z) by (specialize (Hf1 due Hd); lia).
+    assert (Hnow : (now <= Tend)%Z) by (unfold Tend in *; fold Bmax; nia).
+    assert (Htp : takes_pass st ev = false) by (destruct ev; cbn; auto).
+    assert (En : (if timer_chan st && negb (takes_pass st ev) then S n else 0%nat) = 0%nat) by (rewrite Hc; reflexivity).
     unfold timer_chan, timer_due in *.
     destruct ev as [peer ids atime interested susp scan | ids | | interested ch scan].
-    + apply Hcont; [exact Hnow | | exact (Hk1 Hh)].
+    + apply (Hcont 0%nat); [exact Hnow | now rewrite En | | exact (Hk1 Hh)].
       right. unfold timer_chan, timer_due. rewrite notify_keeps_timer by (now apply held_ann_ne with id). eauto.
-    + apply Hcont; [exact Hnow | | apply received_keeps_held; [eapply Hrec; left; reflexivity | exact Hh]].
+    + apply (Hcont 0%nat); [exact Hnow | now rewrite En | | apply received_keeps_held; [eapply Hrec; left; reflexivity | exact Hh]].
       right. unfold timer_chan, timer_due. rewrite received_keeps_timer. eauto.
-    + apply Hcont; [exact Hnow | | ].
-      * unfold resp_inv, timer_chan, timer_due. cbn [step]. rewrite Hd.
-        destruct (due <=? now)%Z; cbn [fst tm t_chan t_armed]; [left; auto | right; eauto].
+    + apply (Hcont 0%nat); [exact Hnow | now rewrite En | | ].
+      * unfold resp_inv_k, timer_chan, timer_due. cbn [step]. rewrite Hd.
+        destruct (due <=? now)%Z; cbn [fst tm t_chan t_armed]; [left; split; [reflexivity|]; split; [cbn; lia | lia] | right; eauto].
       * unfold held. cbn [step]. rewrite Hd. destruct (due <=? now)%Z; exact Hh.
-    + apply Hcont; [exact Hnow | | ].
-      * unfold resp_inv, timer_chan, timer_due. cbn [step]. rewrite Hc. right. eauto.
+    + apply (Hcont 0%nat); [exact Hnow | now rewrite En | | ].
+      * unfold resp_inv_k, timer_chan, timer_due. cbn [step]. rewrite Hc. right. eauto.
       * unfold held. cbn [step]. rewrite Hc. exact Hh.
 Qed.
 End Chase.
@@ -436,27 +454,43 @@ Proof.
   destruct (run true c st1 pre). exact IH.
 Qed.
 
-Lemma announced_count_app a b : announced_count (a ++ b) = (announced_count a + announced_count b)%nat.
-Proof. unfold announced_count. induction a as [|x a IH]; cbn [app fold_right]; [reflexivity | rewrite IH; lia]. Qed.
-
-Lemma run_genv c id Tend tr : forall st A,
-  genv c id Tend st A -> (N.of_nat (2 * (A + announced_count tr)) <= c_hash_limit c)%N ->
-  (forall now ev, In (now, ev) tr -> ev_young c id Tend ev) ->
-  genv c id Tend (fst (run true c st tr)) (A + announced_count tr).
+Lemma fair_run_k_app c lat k pre : forall st tp n post,
+  (n <= k)%nat -> fair_run_k c lat k st tp n (pre ++ post) ->
+  exists n', (n' <= k)%nat /\ fair_run_k c lat k (fst (run true c st pre)) (last_time tp pre) n' post.
 Proof.
-  induction tr as [|[now ev] tr IH]; intros st A Hg Hcap Hy; cbn [run].
-  - cbn. now rewrite Nat.add_0_r.
-  - cbn [announced_count fold_right snd] in *. fold (announced_count tr) in *.
-    assert (Hcap1 : (N.of_nat (2 * (A + ev_count ev)) <= c_hash_limit c)%N) by lia.
-    destruct (step_genv c id Tend st now ev A Hg Hcap1 (Hy now ev (or_introl eq_refl))) as (Hg1 & _).
-    destruct (step true c st now ev) as [st1 o]. cbn [fst] in Hg1.
-    assert (Hcap2 : (N.of_nat (2 * (A + ev_count ev + announced_count tr)) <= c_hash_limit c)%N) by lia.
-    specialize (IH st1 _ Hg1 Hcap2 (fun n e H => Hy n e (or_intror H))).
-    destruct (run true c st1 tr). cbn [fst] in *. now rewrite Nat.add_assoc.
+  induction pre as [|[now ev] pre IH]; intros st tp n post Hn H; cbn [app run last_time]; [eauto|].
+  cbn [fair_run_k] in H. destruct H as (_ & H2 & H).
+  assert (Hn' : ((if timer_chan st && negb (takes_pass st ev) then S n else 0) <= k)%nat).
+  { destruct (timer_chan st) eqn:Ec; cbn [andb]; [|lia]. destruct (takes_pass st ev) eqn:Et; cbn [negb]; [lia|].
+    destruct (H2 eq_refl) as [_ [Hp|Hp]]; [discriminate | lia]. }
+  destruct (step true c st now ev) as [st1 o]. cbn [fst] in H.
+  destruct (IH st1 now _ post Hn' H) as (n' & H1 & H3). exists n'. split; [exact H1|].
+  destruct (run true c st1 pre). exact H3.
 Qed.
 
-Lemma genv_init c id Tend t0 : genv c id Tend (init t0) 0.
-Proof. split; [intros e []|]. split; [cbn; lia | intros e a []]. Qed.
+Lemma cap_ok_app c pre : forall st post,
+  cap_ok c st (pre ++ post) -> cap_ok c st pre /\ cap_ok c (fst (run true c st pre)) post.
+Proof.
+  induction pre as [|[now ev] pre IH]; intros st post H; cbn [app cap_ok run] in *; [auto|].
+  destruct H as [H1 H2]. destruct (step true c st now ev) as [st1 o]. cbn [fst] in *.
+  destruct (IH st1 post H2) as [H3 H4]. destruct (run true c st1 pre). cbn [fst] in *. auto.
+Qed.
+
+Lemma run_genv c id Tend tr : forall st,
+  genv c id Tend st -> cap_ok c st tr ->
+  (forall now ev, In (now, ev) tr -> ev_young c id Tend ev) ->
+  genv c id Tend (fst (run true c st tr)).
+Proof.
+  induction tr as [|[now ev] tr IH]; intros st Hg Hcap Hy; cbn [run]; [exact Hg|].
+  cbn [cap_ok] in Hcap. destruct Hcap as [Hc1 Hc2].
+  destruct (step_genv c id Tend st now ev Hg Hc1 (Hy now ev (or_introl eq_refl))) as (Hg1 & _).
+  destruct (step true c st now ev) as [st1 o]. cbn [fst] in *.
+  specialize (IH st1 Hg1 Hc2 (fun n e H => Hy n e (or_intror H))).
+  destruct (run true c st1 tr). exact IH.
+Qed.
+
+Lemma genv_init c id Tend t0 : genv c id Tend (init t0).
+Proof. split; [intros e [] | intros e a []]. Qed.
 
 Lemma run_log_times c tr : forall st t' rq, In (t', rq) (snd (run true c st tr)) -> exists ev, In (t', ev) tr.
 Proof.
@@ -468,18 +502,18 @@ Proof.
   - destruct (IH1 H) as (e & He). exists e. right. exact He.
 Qed.
 
-(* ====================== the end-to-end theorem ====================== *)
 Lemma run_single c st now ev : fst (run true c st [(now, ev)]) = fst (step true c st now ev).
 Proof. cbn [run]. destruct (step true c st now ev). reflexivity. Qed.
 
-Theorem fetcher_liveness c lat t0 pre t peer ids atime interested susp scan post id :
+(* ====================== the end-to-end theorem ====================== *)
+Theorem fetcher_liveness c lat k t0 pre t peer ids atime interested susp scan post id :
   cfg_wf c -> (c_slack c <= c_arrive c)%Z -> (0 <= lat)%Z ->
   let tr := pre ++ (t, ENotify peer ids atime interested susp scan) :: post in
-  let Tend := (t + 2 * c_arrive c - c_slack c + 2 * lat)%Z in
+  let Tend := (t + 2 * c_arrive c - c_slack c + (Z.of_nat k + 2) * lat)%Z in
   clock_ok t0 tr ->
-  fair_run c lat (init t0) t0 tr ->
+  fair_run_k c lat k (init t0) t0 0 tr ->
   In id interested ->
-  (N.of_nat (2 * announced_count tr) <= c_hash_limit c)%N ->
+  cap_ok c (init t0) tr ->
   (forall now p i a int su sc, In (now, ENotify p i a int su sc) tr -> In id int -> (Tend - a <= c_forget c)%Z) ->
   (forall now i ch sc, In (now, ETimer i ch sc) post -> In id i) ->
   (forall now l, In (now, EReceived l) post -> ~ In id l) ->
@@ -489,50 +523,42 @@ Proof.
   intros Hwf Hsl Hlat tr Tend Hclk Hfair Hin Hcap Hyoung Hint Hrec Hlate.
   set (Nev := (t, ENotify peer ids atime interested susp scan)) in *.
   set (T0 := (t + (c_arrive c - c_slack c))%Z).
-  assert (ETend : Tend = (T0 + c_arrive c + 2 * lat)%Z) by (unfold Tend, T0; lia).
+  assert (ETend : Tend = (T0 + c_arrive c + (Z.of_nat k + 2) * lat)%Z) by (unfold Tend, T0; lia).
   assert (Hy : forall now ev, In (now, ev) tr -> ev_young c id Tend ev).
   { intros now ev Hev. destruct ev; try exact I. cbn. intros Hi. eapply Hyoung; eauto. }
-  (* state after the announcement *)
   replace tr with ((pre ++ [Nev]) ++ post) in * by (unfold tr; now rewrite <- app_assoc).
   destruct (clock_ok_app _ _ _ Hclk) as [Hclk1 Hclk2].
   assert (Elast : last_time t0 (pre ++ [Nev]) = t).
   { clear. revert t0. induction pre as [|[n e] pre IH]; intros t0; cbn [app last_time]; [reflexivity | apply IH]. }
   rewrite Elast in Hclk2.
   pose proof (run_reachT c t0 (pre ++ [Nev]) t0 (init t0) (reachT_init c t0) Hclk1) as Hreach. rewrite Elast in Hreach.
-  pose proof (fair_run_app c lat (pre ++ [Nev]) (init t0) t0 post Hfair) as Hfair2. rewrite Elast in Hfair2.
-  rewrite announced_count_app in Hcap.
-  assert (Hcap1 : (N.of_nat (2 * (0 + announced_count (pre ++ [Nev]))) <= c_hash_limit c)%N) by lia.
-  pose proof (run_genv c id Tend (pre ++ [Nev]) (init t0) 0 (genv_init c id Tend t0) Hcap1
+  destruct (fair_run_k_app c lat k (pre ++ [Nev]) (init t0) t0 0 post (Nat.le_0_l _) Hfair) as (n1 & Hn1 & Hfair2).
+  rewrite Elast in Hfair2.
+  destruct (cap_ok_app c (pre ++ [Nev]) (init t0) post Hcap) as [Hcap1 Hcap2].
+  pose proof (run_genv c id Tend (pre ++ [Nev]) (init t0) (genv_init c id Tend t0) Hcap1
                 (fun n e H => Hy n e (proj2 (in_app_iff _ _ _) (or_introl H)))) as Hg1.
   set (st1 := fst (run true c (init t0) (pre ++ [Nev]))) in *.
-  (* the item is held after the announcement *)
   assert (Hheld : held id st1).
   { unfold st1. rewrite run_app_fst.
     set (st0 := fst (run true c (init t0) pre)).
-    assert (Hcap0 : (N.of_nat (2 * (0 + announced_count pre)) <= c_hash_limit c)%N)
-      by (rewrite announced_count_app in Hcap1; lia).
-    pose proof (run_genv c id Tend pre (init t0) 0 (genv_init c id Tend t0) Hcap0
+    destruct (cap_ok_app c pre (init t0) [Nev] Hcap1) as [Hcap0 HcapN]. fold st0 in HcapN.
+    pose proof (run_genv c id Tend pre (init t0) (genv_init c id Tend t0) Hcap0
                   (fun n e H => Hy n e (proj2 (in_app_iff _ _ _) (or_introl (proj2 (in_app_iff _ _ _) (or_introl H)))))) as Hg0.
-    fold st0 in Hg0.
-    assert (HcapN : (N.of_nat (2 * (0 + announced_count pre + ev_count (snd Nev))) <= c_hash_limit c)%N).
-    { rewrite announced_count_app in Hcap1. cbn [announced_count fold_right] in Hcap1. lia. }
-    destruct (step_genv c id Tend st0 t (snd Nev) _ Hg0 HcapN) as (_ & _ & H3).
+    fold st0 in Hg0. unfold Nev in HcapN. cbn [cap_ok] in HcapN. destruct HcapN as [HcapN _].
+    destruct (step_genv c id Tend st0 t (snd Nev) Hg0 HcapN) as (_ & _ & H3).
     { apply (Hy t). apply in_app_iff. left. apply in_app_iff. right. left. reflexivity. }
     cbn [snd Nev] in H3. specialize (H3 Hin).
     unfold Nev. rewrite run_single. exact H3. }
-  (* a pass is pending *)
-  assert (Hinv : resp_inv lat (T0 + c_arrive c) st1 t).
-  { unfold resp_inv.
+  assert (Hinv : resp_inv_k c lat k T0 st1 t n1).
+  { unfold resp_inv_k.
     destruct (fetcher_pass_pending c t0 t st1 Hwf Hreach (held_ann_ne _ _ Hheld)) as [Hc | (due & Hd & Hb)].
-    - left. split; [exact Hc|]. destruct Hwf. unfold T0. lia.
-    - destruct (timer_chan st1) eqn:Ec; [left; split; [reflexivity | destruct Hwf; unfold T0; lia] | right].
+    - left. split; [exact Hc|]. split; [destruct Hwf; unfold T0; nia | exact Hn1].
+    - destruct (timer_chan st1) eqn:Ec; [left; split; [reflexivity | split; [destruct Hwf; unfold T0; nia | exact Hn1]] | right].
       split; [reflexivity|]. exists due. split; [exact Hd | unfold T0; lia]. }
   rewrite ETend in *.
-  assert (Hcap2 : (N.of_nat (2 * (0 + announced_count (pre ++ [Nev]) + announced_count post)) <= c_hash_limit c)%N) by lia.
-  destruct (chase c lat id T0 Hwf Hsl Hlat post st1 t _ Hinv Hfair2 Hg1 Hcap2
+  destruct (chase c lat k id T0 Hwf Hsl Hlat post st1 t n1 Hinv Hfair2 Hg1 Hcap2
               (fun n e H => Hy n e (proj2 (in_app_iff _ _ _) (or_intror H))) Hheld Hint Hrec Hlate)
     as (p1 & now_p & i & ch & sc & p2 & Epost & Hb & (p & ft & Hft & Hrec')).
-  (* the fetching entry is the record of a request really emitted *)
   set (trA := (pre ++ [Nev]) ++ p1 ++ [(now_p, ETimer i ch sc)]).
   assert (EA : fst (run true c (init t0) trA) = fst (step true c (fst (run true c st1 p1)) now_p (ETimer i ch sc))).
   { unfold trA. rewrite run_app_fst. fold st1. rewrite run_app_fst. cbn [run].
@@ -555,41 +581,55 @@ Proof.
     lia.
 Qed.
 
-Theorem fetcher_liveness_unsuspend c lat t0 pre t peer ids atime interested susp scan post id t_u :
+Theorem fetcher_liveness_unsuspend c lat k t0 pre t peer ids atime interested susp scan post id t_u :
   cfg_wf c -> (c_slack c <= c_arrive c)%Z -> (0 <= lat)%Z ->
   let tr := pre ++ (t, ENotify peer ids atime interested susp scan) :: post in
-  let Tend := (t + 2 * c_arrive c - c_slack c + 2 * lat)%Z in
-  clock_ok t0 tr -> fair_run c lat (init t0) t0 tr -> In id interested ->
-  (N.of_nat (2 * announced_count tr) <= c_hash_limit c)%N ->
+  let Tend := (t + 2 * c_arrive c - c_slack c + (Z.of_nat k + 2) * lat)%Z in
+  clock_ok t0 tr -> fair_run_k c lat k (init t0) t0 0 tr -> In id interested ->
+  cap_ok c (init t0) tr ->
   (forall now p i a int su sc, In (now, ENotify p i a int su sc) tr -> In id int -> (Tend - a <= c_forget c)%Z) ->
   (forall now i ch sc, In (now, ETimer i ch sc) post -> In id i) ->
   (forall now l, In (now, EReceived l) post -> ~ In id l) ->
   (exists now ev, In (now, ev) post /\ (Tend < now)%Z) ->
   exists t' p l, In (t', (p, l)) (snd (run true c (init t0) tr)) /\ In id l /\
-    (t <= t' <= Z.max t t_u + 2 * c_arrive c - c_slack c + 2 * lat)%Z.
+    (t <= t' <= Z.max t t_u + 2 * c_arrive c - c_slack c + (Z.of_nat k + 2) * lat)%Z.
 Proof.
   intros Hwf Hsl Hlat tr Tend H1 H2 H3 H4 H5 H6 H7 H8.
-  destruct (fetcher_liveness c lat t0 pre t peer ids atime interested susp scan post id Hwf Hsl Hlat H1 H2 H3 H4 H5 H6 H7 H8)
+  destruct (fetcher_liveness c lat k t0 pre t peer ids atime interested susp scan post id Hwf Hsl Hlat H1 H2 H3 H4 H5 H6 H7 H8)
     as (t' & p & l & Ha & Hb & Hc).
   exists t', p, l. split; [exact Ha|]. split; [exact Hb|]. unfold Tend in Hc. lia.
 Qed.
 
-(* non-vacuity of the hypotheses of fetcher_liveness: a concrete fair trace *)
-Definition ex_live_trace : list (Z * event) :=
-  [(0, ETick); (0, ETimer [] [] []); (80, ENotify 1%N [7%N] 80 [7%N] true []);
-   (400, ETick); (400, ETimer [7%N] [] []); (720, ETick); (720, ETimer [7%N] [] []); (1040, ETick)]%Z.
+(* non-vacuity: the theorem APPLIED to a concrete trace, every hypothesis discharged: the item is announced
+   while the fetcher is suspended, a notification of another item overtakes the pass once (k = 1) *)
+Definition ex_live_pre : list (Z * event) := [(0, ETick); (0, ETimer [] [] [])]%Z.
+Definition ex_live_post : list (Z * event) :=
+  [(400, ETick); (400, ENotify 2%N [9%N] 400 [9%N] false []); (400, ETimer [7%N; 9%N] [] []);
+   (720, ETick); (720, ETimer [7%N; 9%N] [] []); (1040, ETick)]%Z.
 
-Example ex_live_hyps :
-  clock_ok 0%Z ex_live_trace /\ fair_run cfg_ex 0%Z (init 0%Z) 0%Z ex_live_trace /\
-  (N.of_nat (2 * announced_count ex_live_trace) <= c_hash_limit cfg_ex)%N /\
-  snd (run true cfg_ex (init 0%Z) ex_live_trace) = [(400, (1%N, [7%N])); (720, (1%N, [7%N]))]%Z.
+Example fetcher_liveness_applied :
+  exists t' p l,
+    In (t', (p, l)) (snd (run true cfg_ex (init 0%Z) (ex_live_pre ++ (80%Z, ENotify 1%N [7%N] 80%Z [7%N] true []) :: ex_live_post))) /\
+    In 7%N l /\ (80 <= t' <= 80 + 2 * 320 - 60 + (Z.of_nat 1 + 2) * 0)%Z.
 Proof.
-  split; [cbn; lia|]. split; [|split; [vm_compute; discriminate | vm_compute; reflexivity]].
-  cbn [fair_run ex_live_trace].
-  repeat match goal with |- _ /\ _ => split end; try exact I;
-    first [ intros due Hd; vm_compute in Hd; first [discriminate | inversion Hd; lia]
-          | intros Hc; vm_compute in Hc; discriminate
-          | intros _; split; [eexists _, _, _; reflexivity | lia] ].
+  apply (fetcher_liveness cfg_ex 0%Z 1%nat 0%Z ex_live_pre 80%Z 1%N [7%N] 80%Z [7%N] true [] ex_live_post 7%N).
+  - unfold cfg_wf, cfg_ex; cbn; lia.
+  - cbn; lia.
+  - lia.
+  - cbn; lia.
+  - cbn [fair_run_k ex_live_pre ex_live_post app].
+    repeat match goal with |- _ /\ _ => split end; try exact I;
+      first [ intros due Hd; vm_compute in Hd; first [discriminate | inversion Hd; lia]
+            | intros Hc; vm_compute in Hc; discriminate
+            | intros _; split; [lia | first [left; vm_compute; reflexivity | right; vm_compute; lia]] ].
+  - left. reflexivity.
+  - cbn [cap_ok ex_live_pre ex_live_post app ev_cap]. repeat match goal with |- _ /\ _ => split end; try exact I; vm_compute; discriminate.
+  - intros now p i a int su sc Hin Hi. cbn in Hin.
+    repeat (destruct Hin as [E|Hin]; [inversion E; subst; try (cbn in Hi; intuition discriminate); cbn; lia|]). contradiction.
+  - intros now i ch sc Hin. cbn in Hin.
+    repeat (destruct Hin as [E|Hin]; [inversion E; subst; cbn; auto|]). contradiction.
+  - intros now l Hin. cbn in Hin. repeat (destruct Hin as [E|Hin]; [discriminate|]). contradiction.
+  - exists 720%Z, ETick. split; [cbn; auto | cbn; lia].
 Qed.
 
 (* ====================== the C16 replay scheduler only produces runs of [step] ====================== *)
